@@ -81,7 +81,14 @@ func encBatch(b edge.BufferedBatchMessage) rt.M {
 		pts = append(pts, encBatchPoint(bp))
 	}
 	return rt.M{"k": "batch", "name": b.Name(), "group": string(b.GroupID()), "byName": b.Dimensions().ByName,
-		"dims": encStrs(b.Dimensions().TagNames), "tags": encTags(b.Tags()), "tmax": encTime(b.Time()), "pts": pts}
+		"dims": encStrs(b.Dimensions().TagNames), "tags": encTags(b.Tags()), "tmax": encTime(b.Time()), "pts": pts,
+		"size": strconv.Itoa(b.Begin().SizeHint())}
+}
+
+func encBegin(b edge.BeginBatchMessage) rt.M {
+	return rt.M{"k": "begin", "name": b.Name(), "group": string(b.GroupID()), "byName": b.Dimensions().ByName,
+		"dims": encStrs(b.Dimensions().TagNames), "tags": encTags(b.Tags()), "tmax": encTime(b.Time()),
+		"size": strconv.Itoa(b.SizeHint())}
 }
 
 func encMsg(m edge.Message) rt.M {
@@ -90,6 +97,14 @@ func encMsg(m edge.Message) rt.M {
 		return encPoint(x)
 	case edge.BufferedBatchMessage:
 		return encBatch(x)
+	case edge.BeginBatchMessage:
+		return encBegin(x)
+	case edge.BatchPointMessage:
+		m := encBatchPoint(x)
+		m["k"] = "bp"
+		return m
+	case edge.EndBatchMessage:
+		return rt.M{"k": "end"}
 	default:
 		return rt.M{"k": fmt.Sprintf("%T", m)}
 	}
